@@ -59,7 +59,8 @@ def strat_sample(cases, rng, n):
 
 
 def equiv_case(args):
-    idx, case, seed = args
+    idx, case, seed = args[:3]
+    graphs = args[3] if len(args) > 3 else None
     import ginjax.geometric as geom
     cfg = case["cfg"]
     D = cfg["D"]
@@ -92,6 +93,21 @@ def equiv_case(args):
             w = last_bad[0] if last_bad else {}
             fails.append({"key": dict(key, what="model does not commute with a cyclic translation by its period" if w.get("shift") else "model(g.x) != g.model(x)",
                                       cls=cfg["cls"], bias=str(bias), activation=act, detail=w)})
+        if graphs and not fails:
+            # typing calculus at the perturbed parameter values: every ConvContract / GroupNorm / VN instance of the model is executed as its
+            # well-typed graph (EquivCalculus.tla); an instance that is not its graph gets a layer-level equation test (1e-4 / 2e-3), which
+            # is far sharper than the model-level tolerance
+            from harness import equivcalc
+            for li, layer in enumerate(equivcalc.layer_instances(model)[:10]):
+                bad = [r for r in equivcalc.bind_instance(layer, D, graphs, seed + li) if r[2] != "bound"]
+                if not bad:
+                    continue
+                d1, t1, tol = equivcalc.instance_defect(layer, D, seed + li)
+                d2, _, _ = equivcalc.instance_defect(layer, D, seed + li + 1000)
+                if d1 > tol and d2 > tol:
+                    fails.append({"key": dict(key, what="a layer of the model does not commute with the group (layer-level test at perturbed parameters)",
+                                              cls=cfg["cls"], layer=type(layer).__name__, type=t1, defect=max(d1, d2), unbound=str(bad[0][3])[:120])})
+                    break
         return fails, 1, stats["max_defect"]
     except RuntimeError:
         raise
@@ -141,7 +157,9 @@ def main(tier):
         picks += rng.sample(cand, min(1 if tier == "quick" else 6, len(cand)))
     worst_ok = 0.0
     vacuous = 0
-    for fails, n, mx in core.pmap(equiv_case, [(i, c, core.SEED * 3 + i) for i, c in enumerate(picks)], procs=14, crash_value=([], 0, 0.0)):
+    from harness import equivcalc
+    graphs = equivcalc.run_mc(chk)
+    for fails, n, mx in core.pmap(equiv_case, [(i, c, core.SEED * 3 + i, graphs) for i, c in enumerate(picks)], procs=14, crash_value=([], 0, 0.0)):
         chk.evaluations += n
         if mx < 0:
             vacuous += 1
